@@ -1,5 +1,5 @@
 From Coq Require Import List NArith Bool Lia.
-From LTV Require Import Params_gen.
+From LTV.C15 Require Import ParamsGen.
 From LTV.C15 Require Import Model.
 Import ListNotations.
 Local Open Scope N_scope.
